@@ -172,6 +172,26 @@ var solvers = []solverDef{
 	}},
 }
 
+// second-stage configurations, tried only when the default portfolio is undecided: quantifier instantiation
+// strategy matters more than time for the VCs with nested quantifiers (pure E-matching, enumerative instantiation)
+var solvers2 = []solverDef{
+	{"z3-new/nombqi", func(f string, t, seed int) []string {
+		return []string{"z3-new", fmt.Sprintf("-T:%d", t), "smt.mbqi=false", fmt.Sprintf("smt.random_seed=%d", seed), f}
+	}},
+	{"z3-new/euf", func(f string, t, seed int) []string {
+		return []string{"z3-new", fmt.Sprintf("-T:%d", t), "sat.euf=true", fmt.Sprintf("smt.random_seed=%d", seed), f}
+	}},
+	{"z3/nombqi", func(f string, t, seed int) []string {
+		return []string{"z3", fmt.Sprintf("-T:%d", t), "smt.mbqi=false", fmt.Sprintf("smt.random_seed=%d", seed), f}
+	}},
+	{"cvc5/enum", func(f string, t, seed int) []string {
+		return []string{"cvc5", fmt.Sprintf("--tlimit=%d", t*1000), fmt.Sprintf("--seed=%d", seed), "--produce-models", "--enum-inst", f}
+	}},
+	{"cvc5/nosimp", func(f string, t, seed int) []string {
+		return []string{"cvc5", fmt.Sprintf("--tlimit=%d", t*1000), fmt.Sprintf("--seed=%d", seed), "--produce-models", "--simplification=none", f}
+	}},
+}
+
 var (
 	workDir     string
 	queryCount  int64
@@ -211,8 +231,36 @@ func cleanupWorkDir() {
 	}
 }
 
-// runSolvers races the portfolio on one query. wantModel adds (get-model) handling.
+// runSolvers: default portfolio first (short limit), then the second-stage configurations with the full limit.
+// runSolversFast: one stage, every configuration, short limit (joint and group attempts that may simply fail).
+func runSolversFast(query string, timeoutS int, seed int, label string) SolverResult {
+	all := append(append([]solverDef{}, solvers...), solvers2[0], solvers2[3])
+	return runPortfolio(all, query, timeoutS, seed, label)
+}
+
 func runSolvers(query string, timeoutS int, seed int, label string) SolverResult {
+	t1 := timeoutS
+	if t1 > 4 {
+		t1 = 4
+	}
+	// stage 1: the three defaults plus pure E-matching z3 and enumerative cvc5 (the two configurations that decide
+	// most VCs with nested quantifiers)
+	r := runPortfolio(append(append([]solverDef{}, solvers...), solvers2[0], solvers2[3]), query, t1, seed, label)
+	if r.Status == "unsat" || r.Status == "sat" || r.Status == "inconsistent" {
+		return r
+	}
+	if strings.Contains(r.Detail, ":error:") {
+		return r
+	}
+	r2 := runPortfolio(append(append([]solverDef{}, solvers2...), solvers...), query, timeoutS, seed, label)
+	r2.Detail = r.Detail + " | " + r2.Detail
+	if os.Getenv("KVC_TRACE") != "" {
+		fmt.Fprintf(os.Stderr, "TRACE stage2 %s %s %.1fs %s\n", r2.Status, r2.Solver, r2.Seconds, label)
+	}
+	return r2
+}
+
+func runPortfolio(solvers []solverDef, query string, timeoutS int, seed int, label string) SolverResult {
 	initWorkDir()
 	n := atomic.AddInt64(&queryCount, 1)
 	file := filepath.Join(workDir, fmt.Sprintf("q%06d.smt2", n))
